@@ -335,27 +335,31 @@ func c12Scenarios(tier string) []*Scenario {
 	keysOf := func(r *regWorld) map[string]string { return r.keys }
 	_ = keysOf
 	mk := func(name, desc string, level string, b int, run func(w *World, r *regWorld)) {
-		var keys map[string]string
-		_ = keys
-		scs = append(scs, &Scenario{
-			Name: "c12/" + name, Prop: "C12", Desc: desc, Heavy: true,
-			Opt: Options{Level: level, Focus: focus, Bound: b},
-			Run: func(w *World) {
-				r := newRegWorld(w)
-				run(w, r)
-				r.finish()
-			},
-			Check: func(w *World, x *Exec) []Violation {
-				vs := NoHang(x, "C12")
-				if x.Hang {
+		for _, revOrder := range []bool{false, true} {
+			revOrder := revOrder
+			if revOrder && !strings.HasPrefix(name, "p3") && !strings.HasPrefix(name, "p4") {
+				continue // the second scheduler family for the programs with concurrent threads
+			}
+			scs = append(scs, &Scenario{
+				Name: fmt.Sprintf("c12/%s/rev=%v", name, revOrder), Prop: "C12", Desc: desc, Heavy: true,
+				Opt: Options{Level: level, Focus: focus, Bound: b, RevOrder: revOrder},
+				Run: func(w *World) {
+					r := newRegWorld(w)
+					run(w, r)
+					r.finish()
+				},
+				Check: func(w *World, x *Exec) []Violation {
+					vs := NoHang(x, "C12")
+					if x.Hang {
+						return vs
+					}
+					r := w.Vals["reg"].(*regWorld)
+					vs = append(vs, regOracle(w, x, r.keys)...)
+					vs = append(vs, NoLeak(w, x, "C12")...)
 					return vs
-				}
-				r := w.Vals["reg"].(*regWorld)
-				vs = append(vs, regOracle(w, x, r.keys)...)
-				vs = append(vs, NoLeak(w, x, "C12")...)
-				return vs
-			},
-		})
+				},
+			})
+		}
 	}
 	rr := func(w *World, r *regWorld, group string, ids []string, tag byte, key string, want []string) {
 		for i, id := range ids {
